@@ -210,6 +210,17 @@ def rejection_table():
                 obs.append(Ob(f"print_kauri_tree[splits={list(seq)},features={list(feats)},{ln} names]: "
                               + ("accepted" if ln >= need else "rejected (fewer names than the largest used feature index + 1)"),
                               PROVED if ok else REFUTED, "enumeration", "P", {"exception": repr(e), "replayed": True}, fn=fn))
+    # one name per input feature is the documented, in-domain argument -- however many splits re-use the same few features
+    for seq in split_sequences(4):
+        if len(seq) < 3:
+            continue
+        for feats in ([0] * len(seq), [j % 2 for j in range(len(seq))]):
+            t = build_tree(seq, feats, [0.25 * j for j in range(len(seq))])
+            m = fitted_model(t)
+            m.n_features_in_ = 2
+            e = runs(m, ["first", "second"])
+            obs.append(Ob(f"print_kauri_tree[splits={list(seq)},features={list(feats)},one name per input feature (2 names, {len(seq)} split nodes)]: accepted",
+                          PROVED if e is None else REFUTED, "enumeration", "P", {"exception": repr(e), "replayed": True}, fn=fn))
     # deep trees (any depth is in scope): a chain of 14 splits and a mixed tree of depth 12, printed completely and read back
     rs = np.random.RandomState(0)
     for tag, seq in (("chain of 14 right-child splits (depth 14)", [0] + [2 * j for j in range(1, 14)]),
